@@ -44,6 +44,9 @@ def run(prog, tier):
     check_registry(R, prog)
     check_count_formula(R, prog)
     check_edge_side(R, prog)
+    from ._families import borrow as _borrow
+    from . import c16 as _c16
+    _borrow(R, P, "GRAPH", prog, _c16.analyse, floor=100)
     return R
 
 
